@@ -38,12 +38,12 @@ MAP = [
     ("src/filter/buffer.rs", ["C18"]),
     ("src/action/ffi.rs", ["C18"]),
     ("src/action/trace.rs", ["C17"]),
-    ("src/action/", ["C05", "C06", "C11"]),
+    ("src/action/", ["C05", "C06", "C11", "C17", "C19"]),
     ("src/api/ffi.rs", ["C18"]),
-    ("src/api/", ["C19", "C06"]),
-    ("src/html/", ["C16", "C03"]),
+    ("src/api/", ["C19", "C06", "C07"]),
+    ("src/html/", ["C16", "C03", "C15", "C04"]),
     ("src/http/ffi.rs", ["C18"]),
-    ("src/http/", ["C01", "C06", "C18"]),
+    ("src/http/", ["C01", "C06", "C18", "C19"]),
     ("src/ffi_helpers.rs", ["C18"]),
     ("src/router_config.rs", ["C01"]),
 ]
@@ -118,7 +118,42 @@ def apply(c):
     return old.strip(), new.strip()
 
 
+ALL = ["C01", "C02", "C03", "C04", "C05", "C06", "C08", "C11", "C12", "C14", "C15", "C16", "C17", "C18", "C19", "C07"]
+
+
+def recheck():
+    """re-apply every survivor of results.jsonl and run every property's quick check on it"""
+    recs = [json.loads(l) for l in open(OUT) if l.startswith("{")]
+    surv = [r for r in recs if r["outcome"] == "SURVIVED"]
+    for r in surv:
+        sh("git checkout -q -- .", cwd=ALT_REPO)
+        p = os.path.join(ALT_REPO, r["file"])
+        lines = open(p).read().split("\n")
+        if lines[r["line"] - 1].strip() != r["old"]:
+            print("stale", r["file"], r["line"]); continue
+        lines[r["line"] - 1] = lines[r["line"] - 1].replace(r["old"], r["new"])
+        open(p, "w").write("\n".join(lines))
+        rc, out = sh('RUSTFLAGS="--cfg redirectionio_verif" cargo build --offline --profile sim -p riosim', cwd=ALT_SIM + "/sim")
+        if rc != 0:
+            print("build failed", r["file"], r["line"]); continue
+        killed = None
+        for prop in ALL:
+            if prop in (props_for(r["file"]) or []) and not os.environ.get("RECHECK_ALL"):
+                continue
+            rc, out = sh(f"{ALT_SIM}/sim/target/sim/riosim check {prop} quick", env={"VERIF_HOME": HOME}, timeout=1200)
+            m = re.search(r"VIOLATION property=\S+ replay=\S+\n\s*clause=(\S+)", out)
+            if m:
+                killed = (prop, m.group(1)); break
+        rec = dict(r); rec["outcome"] = "killed-on-recheck" if killed else "SURVIVED-ALL"; rec["by"] = killed[0] if killed else None; rec["clause"] = killed[1] if killed else ""
+        open("/verif/mutation/recheck.jsonl", "a").write(json.dumps(rec) + "\n")
+        print(json.dumps(rec), flush=True)
+    sh("git checkout -q -- .", cwd=ALT_REPO)
+    sh('RUSTFLAGS="--cfg redirectionio_verif" cargo build --offline --profile sim -p riosim', cwd=ALT_SIM + "/sim")
+
+
 def main():
+    if sys.argv[1] == "recheck":
+        return recheck()
     seed = int(sys.argv[1]); n = int(sys.argv[2]); subs = sys.argv[3:]
     rng = random.Random(seed)
     rc, out = sh("git ls-files src", cwd=ALT_REPO)
